@@ -537,19 +537,42 @@ Section Facts.
     destruct raising; inversion Hp; subst; reflexivity.
   Qed.
 
+  (* a name argument setProperty accepts: the Property constructor parsed it *)
+  Definition Accepted (a : namearg) : Prop := nok a = true /\ raw a <> [] /\ plit a <> [].
+  (* the name the replace look-up uses (fix C11-set-name-as-stored): the spelling itself when it normalises to
+     the stored name, else the stored literal name *)
+  Definition set_name (a : namearg) : str :=
+    if negb (eqs (norm (raw a)) (norm (plit a))) then plit a else raw a.
+
+  Lemma norm_set_name a : norm (set_name a) = norm (plit a).
+  Proof.
+    unfold set_name. destruct (eqs (norm (raw a)) (norm (plit a))) eqn:E; simpl; auto.
+    now apply eqs_spec in E.
+  Qed.
+
+  Lemma set_name_nonnil a : Accepted a -> is_nil (set_name a) = false.
+  Proof.
+    intros (_ & Hr & Hl). unfold set_name. destruct (negb _).
+    - destruct (plit a); [congruence|reflexivity].
+    - destruct (raw a); [congruence|reflexivity].
+  Qed.
+
   Theorem set_replaces_effective_or_appends raising a v pr im b :
-    Inv b -> nok a = true -> raw a <> [] -> prio_imp raising pr = Some im ->
+    Inv b -> Accepted a -> prio_imp raising pr = Some im ->
     setProperty false raising (ByName a (VOk v) pr) true true b =
-    Done (match effective (by_name (norm (raw a))) b with
+    Done (match effective (by_name (norm (plit a))) b with
           | Some (i, _) => replace_at i v im b
           | None => b ++ [IProp (new_prop a v im)]
           end) RNone.
   Proof.
-    intros HI Hn Hr Hp. unfold StyleDecl.setProperty. rewrite (build_ok _ _ _ _ _ Hn Hp).
-    assert (Hnil : is_nil (raw a) = false) by (destruct (raw a); [congruence|reflexivity]).
+    intros HI Ha Hp. pose proof Ha as (Hn & _ & _).
+    unfold StyleDecl.setProperty. rewrite (build_ok _ _ _ _ _ Hn Hp).
+    change (if true && negb (eqs (norm (raw a)) (name (new_prop a v im))) then lit (new_prop a v im) else raw a)
+      with (set_name a).
+    pose proof (set_name_nonnil a Ha) as Hnil. pose proof (norm_set_name a) as Hnm.
     unfold getProperties. simpl. rewrite Hnil. simpl.
-    rewrite (get_is_effective _ _ HI).
-    destruct (effective (by_name (norm (raw a))) b) as [[i p]|] eqn:E; simpl; [|reflexivity].
+    rewrite (get_is_effective _ _ HI), Hnm.
+    destruct (effective (by_name (norm (plit a))) b) as [[i p]|] eqn:E; simpl; [|reflexivity].
     apply effective_sound in E as [_ M]. unfold by_name in M. rewrite M. reflexivity.
   Qed.
 
@@ -724,41 +747,43 @@ Section Facts.
 
   (* ---------------- blocks without duplicate names *)
   Theorem nodup_preserved raising a v pr im b :
-    Inv b -> WfName a -> raw a <> [] -> prio_imp raising pr = Some im -> NoDupNames b ->
+    Inv b -> Accepted a -> prio_imp raising pr = Some im -> NoDupNames b ->
     NoDupNames (after b (setProperty false raising (ByName a (VOk v) pr) true true b)).
   Proof.
-    intros HI [Hn Hw] Hr Hp Hd.
-    rewrite (set_replaces_effective_or_appends _ _ _ _ _ _ HI Hn Hr Hp). simpl.
-    destruct (effective (by_name (norm (raw a))) b) as [[i p]|] eqn:E.
+    intros HI Ha Hp Hd.
+    rewrite (set_replaces_effective_or_appends _ _ _ _ _ _ HI Ha Hp). simpl.
+    destruct (effective (by_name (norm (plit a))) b) as [[i p]|] eqn:E.
     - unfold NoDupNames. now rewrite names_replace_at.
     - unfold NoDupNames, names. rewrite props_of_app, map_app. simpl.
       apply NoDup_snoc; [exact Hd|].
       rewrite in_map_iff. intros (q & Eq & Hq).
       rewrite effective_none in E. apply in_props_of in Hq. specialize (E q Hq).
-      unfold by_name in E. rewrite Eq, Hw, eqs_refl in E. discriminate.
+      unfold by_name in E. rewrite Eq, eqs_refl in E. discriminate.
   Qed.
 
-  Theorem set_then_get raising a v pr im b :
-    Inv b -> WfName a -> raw a <> [] -> prio_imp raising pr = Some im -> NoDupNames b ->
+  (* reading back through ANY spelling r that normalises to the stored name (the stored literal name itself,
+     the spelling used for setting when it is canonical, another case/escape variant) *)
+  Theorem set_then_get raising a v pr im b r :
+    Inv b -> Accepted a -> prio_imp raising pr = Some im -> NoDupNames b ->
+    norm r = norm (plit a) ->
     let b' := after b (setProperty false raising (ByName a (VOk v) pr) true true b) in
-    getPropertyValue (raw a) true b' = RVal v /\ getPropertyPriority (raw a) true b' = im.
+    getPropertyValue r true b' = RVal v /\ getPropertyPriority r true b' = im.
   Proof.
-    intros HI Hwf Hr Hp Hd b'.
+    intros HI Ha Hp Hd Hr b'.
     assert (Hd' : NoDupNames b') by (apply (nodup_preserved raising a v pr im b); auto).
     assert (HI' : Inv b') by (apply Inv_set; simpl; auto).
-    destruct Hwf as [Hn Hw].
     (* the entry that was written *)
-    assert (Hnew : exists q, In (IProp q) b' /\ name q = norm (raw a) /\ value q = v /\ imp q = im).
-    { unfold b'. rewrite (set_replaces_effective_or_appends _ _ _ _ _ _ HI Hn Hr Hp). simpl.
-      destruct (effective (by_name (norm (raw a))) b) as [[i p]|] eqn:E.
+    assert (Hnew : exists q, In (IProp q) b' /\ name q = norm (plit a) /\ value q = v /\ imp q = im).
+    { unfold b'. rewrite (set_replaces_effective_or_appends _ _ _ _ _ _ HI Ha Hp). simpl.
+      destruct (effective (by_name (norm (plit a))) b) as [[i p]|] eqn:E.
       - apply effective_sound in E as [Hi M]. exists (set_vp p v im). repeat split; auto.
         + eapply nth_error_In. apply replace_at_hit. exact Hi.
         + unfold by_name in M. apply eqs_spec in M. exact M.
       - exists (new_prop a v im). repeat split; auto. apply in_or_app. simpl. auto. }
     destruct Hnew as (q & Hq & Nq & Vq & Iq).
     unfold StyleDecl.getPropertyValue, StyleDecl.getPropertyPriority.
-    rewrite (get_is_effective _ _ HI').
-    destruct (effective (by_name (norm (raw a))) b') as [[j e]|] eqn:E.
+    rewrite (get_is_effective _ _ HI'), Hr.
+    destruct (effective (by_name (norm (plit a))) b') as [[j e]|] eqn:E.
     - apply effective_sound in E as [Hj M]. unfold by_name in M. apply eqs_spec in M.
       assert (e = q).
       { apply (nodup_name_unique (props_of b')); auto.
@@ -768,6 +793,185 @@ Section Facts.
       subst e. now rewrite Vq, Iq.
     - rewrite effective_none in E. specialize (E q Hq). unfold by_name in E.
       rewrite Nq, eqs_refl in E. discriminate.
+  Qed.
+
+  Corollary set_then_get_stored raising a v pr im b :
+    Inv b -> Accepted a -> prio_imp raising pr = Some im -> NoDupNames b ->
+    let b' := after b (setProperty false raising (ByName a (VOk v) pr) true true b) in
+    getPropertyValue (plit a) true b' = RVal v /\ getPropertyPriority (plit a) true b' = im.
+  Proof. intros HI Ha Hp Hd. apply set_then_get; auto. Qed.
+
+  Corollary set_then_get_same_spelling raising a v pr im b :
+    Inv b -> Accepted a -> WfName a -> prio_imp raising pr = Some im -> NoDupNames b ->
+    let b' := after b (setProperty false raising (ByName a (VOk v) pr) true true b) in
+    getPropertyValue (raw a) true b' = RVal v /\ getPropertyPriority (raw a) true b' = im.
+  Proof. intros HI Ha [_ Hw] Hp Hd. apply set_then_get; auto. Qed.
+
+  (* ---------------- literal-name mode (normalize=False): which entry each accessor / mutator picks *)
+  Definition by_lit (nm : str) (p : prop) : bool := eqs nm (lit p).
+  Definition lits (b : block) : list str := map lit (props_of b).
+  Definition NoDupLits (b : block) : Prop := NoDup (lits b).
+
+  Theorem get_literal_is_effective nm b :
+    getProperty nm false b = effective (by_lit nm) b.
+  Proof. rewrite get_is_effective_gen. apply effective_ext. intros p _. reflexivity. Qed.
+
+  Theorem remove_literal_exact nm b :
+    removeProperty false nm false b =
+    Done (filter (fun it => match it with IProp p => negb (eqs (lit p) nm) | _ => true end) b)
+         (getPropertyValue nm false b).
+  Proof. reflexivity. Qed.
+
+  (* the last entry selected by f (position and entry) *)
+  Definition last_entry (f : prop -> bool) (b : block) : option (nat * prop) :=
+    match last_where (is_match f) (indexed b) with Some ip => as_prop ip | None => None end.
+
+  Lemma last_entry_sound f b i p :
+    last_entry f b = Some (i, p) -> nth_error b i = Some (IProp p) /\ f p = true.
+  Proof.
+    unfold last_entry. destruct (last_where (is_match f) (indexed b)) as [ip|] eqn:E; [|discriminate].
+    intros H. apply as_prop_some in H; subst. apply last_where_spec in E as (l1 & l2 & E & F & _).
+    split; [|exact F]. apply In_indexed. rewrite E. apply in_or_app. simpl. auto.
+  Qed.
+
+  Lemma last_entry_none f b : last_entry f b = None <-> forall p, In (IProp p) b -> f p = false.
+  Proof.
+    unfold last_entry. split.
+    - intros H p Hp. destruct (last_where (is_match f) (indexed b)) as [ip|] eqn:E.
+      + pose proof (last_where_spec _ _ _ E) as (l1 & l2 & _ & F & _). unfold is_match in F.
+        destruct ip as [j [q|c|u]]; simpl in *; discriminate.
+      + destruct (indexed_In _ _ Hp) as [i Hi]. apply (proj1 (last_where_none _ _) E) in Hi. exact Hi.
+    - intros H. replace (last_where (is_match f) (indexed b)) with (@None (nat * item)); auto.
+      symmetry. apply last_where_none. intros [i it] Hi. unfold is_match. simpl.
+      destruct it; auto. apply H. apply In_indexed in Hi. eapply nth_error_In; eauto.
+  Qed.
+
+  Lemma first_hit_literal nm nn (sel : prop -> bool) (l : list (nat * item)) :
+    first_hit nm nn false
+      (rev (flat_map (fun ip : nat * item => match ip with
+                                             | (i, IProp p) => if sel p then [Some (i, p)] else []
+                                             | _ => []
+                                             end) l)) =
+    match last_where (is_match (fun p => sel p && eqs (lit p) nm)) l with
+    | Some ip => match as_prop ip with Some (i, _) => HAt i | None => HNone end
+    | None => HNone
+    end.
+  Proof.
+    induction l as [|[i it] l IH] using rev_ind; [reflexivity|].
+    rewrite flat_map_app, rev_app_distr, last_where_snoc. simpl flat_map.
+    destruct it as [p|c|u].
+    - change (is_match (fun p0 => sel p0 && eqs (lit p0) nm) (i, IProp p)) with (sel p && eqs (lit p) nm).
+      destruct (sel p); simpl.
+      + destruct (eqs (lit p) nm); [reflexivity|exact IH].
+      + exact IH.
+    - change (is_match (fun p0 => sel p0 && eqs (lit p0) nm) (i, IComment c)) with false. exact IH.
+    - change (is_match (fun p0 => sel p0 && eqs (lit p0) nm) (i, IUnknown u)) with false. exact IH.
+  Qed.
+
+  (* setProperty(name, v, normalize=False): overwrites the LAST entry whose literal name is the look-up name
+     (not the literal-effective one: an earlier !important entry of that literal name is left alone), else appends *)
+  Theorem set_literal_spec raising a v pr im b :
+    Inv b -> Accepted a -> prio_imp raising pr = Some im ->
+    setProperty false raising (ByName a (VOk v) pr) false true b =
+    Done (match last_entry (fun p => eqs (lit p) (set_name a)) b with
+          | Some (i, _) => replace_at i v im b
+          | None => b ++ [IProp (new_prop a v im)]
+          end) RNone.
+  Proof.
+    intros HI Ha Hp. pose proof Ha as (Hn & _ & _).
+    unfold StyleDecl.setProperty. rewrite (build_ok _ _ _ _ _ Hn Hp).
+    change (if true && negb (eqs (norm (raw a)) (name (new_prop a v im))) then lit (new_prop a v im) else raw a)
+      with (set_name a).
+    set (nm := set_name a).
+    unfold getProperties. rewrite andb_false_r. simpl negb. cbv iota.
+    rewrite (first_hit_literal nm (norm nm) (fun p => is_nil (norm nm) || eqs (name p) (norm nm)) (indexed b)).
+    unfold last_entry.
+    rewrite (last_where_ext (is_match (fun p => (is_nil (norm nm) || eqs (name p) (norm nm)) && eqs (lit p) nm))
+                            (is_match (fun p => eqs (lit p) nm))).
+    - destruct (last_where (is_match (fun p => eqs (lit p) nm)) (indexed b)) as [[i [p|c|u]]|]; reflexivity.
+    - intros [i it] Hi. unfold is_match. simpl. destruct it as [p|c|u]; auto.
+      destruct (eqs (lit p) nm) eqn:E; [|now rewrite andb_false_r].
+      rewrite andb_true_r. apply eqs_spec in E.
+      apply In_indexed in Hi. apply nth_error_In in Hi.
+      unfold Inv in HI. rewrite Forall_forall in HI. specialize (HI _ Hi). simpl in HI.
+      rewrite HI, E, eqs_refl. now rewrite orb_true_r.
+  Qed.
+
+  Lemma lits_replace_at i v im b : lits (replace_at i v im b) = lits b.
+  Proof.
+    unfold lits. revert i; induction b as [|it b IH]; intros [|i]; simpl; auto.
+    - destruct it; reflexivity.
+    - specialize (IH i). destruct it; simpl; rewrite ?map_app; simpl; congruence.
+  Qed.
+
+  Lemma nodup_lit_unique (ps : list prop) p q :
+    NoDup (map lit ps) -> In p ps -> In q ps -> lit p = lit q -> p = q.
+  Proof.
+    induction ps as [|x ps IH]; simpl; intros Hn Hp Hq E; [tauto|].
+    inversion Hn as [|? ? Hx Hr]; subst.
+    destruct Hp as [->|Hp], Hq as [->|Hq]; auto.
+    - exfalso. apply Hx. rewrite E. now apply in_map.
+    - exfalso. apply Hx. rewrite <- E. now apply in_map.
+  Qed.
+
+  Lemma NoDupNames_Lits b : Inv b -> NoDupNames b -> NoDupLits b.
+  Proof.
+    intros HI. unfold NoDupNames, NoDupLits, names, lits.
+    assert (E : map name (props_of b) = map norm (map lit (props_of b))).
+    { rewrite map_map. apply map_ext_in. intros p Hp. apply in_props_of in Hp.
+      unfold Inv in HI. rewrite Forall_forall in HI. apply (HI _ Hp). }
+    rewrite E. apply NoDup_map_inv.
+  Qed.
+
+  (* literal-mode read-back: the name must be given as it is stored (the documented contract "always lowercase
+     (even if not normalized)"): set_name a = plit a.  Distinct LITERAL names suffice and are preserved. *)
+  Theorem set_then_get_literal raising a v pr im b :
+    Inv b -> Accepted a -> set_name a = plit a -> prio_imp raising pr = Some im -> NoDupLits b ->
+    let b' := after b (setProperty false raising (ByName a (VOk v) pr) false true b) in
+    NoDupLits b' /\ getPropertyValue (plit a) false b' = RVal v /\ getPropertyPriority (plit a) false b' = im.
+  Proof.
+    intros HI Ha Hs Hp Hd b'.
+    assert (Hb' : b' = match last_entry (fun p => eqs (lit p) (plit a)) b with
+                       | Some (i, _) => replace_at i v im b
+                       | None => b ++ [IProp (new_prop a v im)]
+                       end).
+    { unfold b'. rewrite (set_literal_spec _ _ _ _ _ _ HI Ha Hp), Hs. reflexivity. }
+    assert (Hd' : NoDupLits b').
+    { rewrite Hb'. destruct (last_entry (fun p => eqs (lit p) (plit a)) b) as [[i p]|] eqn:E.
+      - unfold NoDupLits. now rewrite lits_replace_at.
+      - unfold NoDupLits, lits. rewrite props_of_app, map_app. simpl. apply NoDup_snoc; [exact Hd|].
+        rewrite in_map_iff. intros (q & Eq & Hq). rewrite last_entry_none in E.
+        apply in_props_of in Hq. specialize (E q Hq). simpl in E. rewrite Eq, eqs_refl in E. discriminate. }
+    split; [exact Hd'|].
+    assert (Hnew : exists q, In (IProp q) b' /\ lit q = plit a /\ value q = v /\ imp q = im).
+    { rewrite Hb'. destruct (last_entry (fun p => eqs (lit p) (plit a)) b) as [[i p]|] eqn:E.
+      - apply last_entry_sound in E as [Hi M]. exists (set_vp p v im). repeat split; auto.
+        + eapply nth_error_In. apply replace_at_hit. exact Hi.
+        + apply eqs_spec in M. exact M.
+      - exists (new_prop a v im). repeat split; auto. apply in_or_app. simpl. auto. }
+    destruct Hnew as (q & Hq & Lq & Vq & Iq).
+    unfold StyleDecl.getPropertyValue, StyleDecl.getPropertyPriority.
+    rewrite get_literal_is_effective.
+    destruct (effective (by_lit (plit a)) b') as [[j e]|] eqn:E.
+    - apply effective_sound in E as [Hj M]. unfold by_lit in M. apply eqs_spec in M.
+      assert (e = q).
+      { apply (nodup_lit_unique (props_of b')); auto.
+        - apply in_props_of. eapply nth_error_In; eauto.
+        - now apply in_props_of.
+        - congruence. }
+      subst e. now rewrite Vq, Iq.
+    - rewrite effective_none in E. specialize (E q Hq). unfold by_lit in E.
+      rewrite Lq, eqs_refl in E. discriminate.
+  Qed.
+
+  (* when literal and normalised look-up agree: every entry of that name is spelled exactly nm *)
+  Theorem literal_eq_normalized nm b :
+    Inv b -> (forall p, In (IProp p) b -> name p = norm nm -> lit p = nm) ->
+    getProperty nm false b = getProperty nm true b.
+  Proof.
+    intros HI H. rewrite !get_is_effective_gen. apply effective_ext. intros p Hp.
+    unfold matches. simpl. destruct (eqs (norm nm) (name p)) eqn:E; simpl; auto.
+    apply eqs_spec in E. symmetry in E. rewrite (H p Hp E), eqs_refl. reflexivity.
   Qed.
 
   (* ---------------- the setProperty loop never meets None (property.name on None would crash) *)
@@ -900,21 +1104,20 @@ Lemma normalize_not_idempotent :
   let x := [111; 92; 92; 120]%N in norm_i (norm_i x) <> norm_i x.
 Proof. vm_compute. discriminate. Qed.
 
-(* a spelling with surrounding whitespace is accepted by the Property constructor but looked up as it is:
-   WfName fails and a second entry of the same name is appended (open finding C11-name-whitespace-spelling) *)
+(* a spelling with surrounding whitespace is accepted by the Property constructor; since fix
+   C11-set-name-as-stored the entry it is stored as is the one replaced (no second entry).  Look-ups stay by
+   norm(spelling): reading through ' color ' itself finds nothing, so the hypothesis norm r = norm plit of
+   set_then_get is necessary for the READING spelling. *)
 Definition nm_ws : namearg := mkName (s " color ") (s "color") true.
 Lemma whitespace_spelling_witness :
   let b := [IProp (mkProp (s "color") (s "color") 1%N false)] in
+  let b' := after b (setProperty norm_i false true (ByName nm_ws (VOk 2%N) PNone) true true b) in
   norm_i (raw nm_ws) <> norm_i (plit nm_ws) /\
-  NoDupNames b /\
-  ~ NoDupNames (after b (setProperty norm_i false true (ByName nm_ws (VOk 2%N) PNone) true true b)) /\
-  getPropertyValue norm_i (raw nm_ws) true
-    (after b (setProperty norm_i false true (ByName nm_ws (VOk 2%N) PNone) true true b)) = REmpty.
+  b' = [IProp (mkProp (s "color") (s "color") 2%N false)] /\
+  getPropertyValue norm_i (s "color") true b' = RVal 2%N /\
+  getPropertyValue norm_i (raw nm_ws) true b' = REmpty.
 Proof.
-  cbv zeta. split; [vm_compute; discriminate|]. split; [|split].
-  - repeat constructor. simpl. tauto.
-  - vm_compute. intros H. inversion H as [|? ? Hx _]; subst. apply Hx. simpl. auto.
-  - vm_compute. reflexivity.
+  cbv zeta. split; [vm_compute; discriminate|]. repeat split; vm_compute; reflexivity.
 Qed.
 
 (* literal-name mode replaces the LAST entry with that literal name, not the literal-effective one *)
@@ -922,6 +1125,28 @@ Lemma set_literal_replaces_last_witness :
   after blk_dup (setProperty norm_i false true (ByName nm_color (VOk 3%N) PNone) false true blk_dup)
   = [IProp (mkProp (s "color") (s "color") 1%N true); IComment 1%N; IProp (mkProp (s "color") (s "color") 3%N false)].
 Proof. vm_compute. reflexivity. Qed.
+
+(* seed C11-2 territory: the generated accessors must look up by NORMALISED name.  On a block whose entry is
+   spelled c\olor the attribute `color` reads it (model = code: _getP -> getPropertyValue(CSSName)), whereas a
+   literal-mode look-up of `color` finds nothing; the same for deletion. *)
+Definition blk_esc : block := map mk_item_i [DDecl (s "c\olor") 1%N false].
+Lemma alias_needs_normalized_lookup_witness :
+  Inv norm_i blk_esc /\
+  get_attr norm_i attrs_i (s "color") blk_esc = Some (RVal 1%N) /\
+  getPropertyValue norm_i (s "color") false blk_esc = REmpty /\
+  after blk_esc (step_i false (ODelAttr (s "color")) blk_esc) = [] /\
+  after blk_esc (removeProperty norm_i false (s "color") false blk_esc) = blk_esc.
+Proof. split; [apply Inv_mk_items|]. repeat split; vm_compute; reflexivity. Qed.
+
+Definition nm_esc : namearg := mkName (s "c\olor") (s "c\olor") true.
+Example set_then_get_literal_ex :
+  Accepted nm_esc /\ set_name norm_i nm_esc = plit nm_esc /\ NoDupLits blk_esc /\
+  after blk_esc (setProperty norm_i false true (ByName nm_esc (VOk 5%N) PImportant) false true blk_esc)
+  = [IProp (mkProp (s "c\olor") (s "color") 5%N true)].
+Proof.
+  split; [repeat split; discriminate|]. split; [vm_compute; reflexivity|].
+  split; [vm_compute; repeat constructor; simpl; tauto|]. vm_compute. reflexivity.
+Qed.
 
 (* non-vacuity *)
 Definition blk_ex : block :=
